@@ -16,6 +16,17 @@ Written FROM THE PROPERTY STATEMENT, not from the code:
 
 The same checker is used on synthetic declarations (`synthetic_inputs`) and, through wrappers installed on the three entry
 points of src.ir.type_utils, on every call the program generator makes for a fixed list of (language, seed, switches).
+
+Interface:  run(tier, seed, stop_first=False) -> result dict ;  replay(failing_input) -> bool  (see props/C08_bounded.py).
+Check names partition the failures by input class, so that a recorded finding (check + input) does not hide another one:
+  bounded[arity] [no-primitive] [no-bare-constructor]
+  bounded[bound/<requested|derived|chosen>[+req|+proj]]   offending argument is the caller's request / derived from a request
+                                                          through bare-variable bounds / the helper's choice; requests
+                                                          present (+req), some request is a projection (+proj)
+  bounded[kept/<plain|projection>-request]
+  bounded[variance:<caller-choice|declared|switch|in-bound/<unbounded|var-bound|class-bound>>]
+Determinism: global RNG seeded before src.utils is imported; counter-based Node.__hash__ restarted for every generated
+program; utils.random.r, the word pool and cfg.dis reset per input; result independent of the number of worker processes.
 """
 import itertools
 import os
@@ -1092,8 +1103,8 @@ SIZES = {
     # repetitions; (c) random sample
     'quick': dict(a_per={1: 40, 2: 10, 3: 3, 4: 60}, a_stride3=9, b_stride={1: 1, 2: 3, 3: 80}, b_mod=6, b_reps=1,
                   c=4000),
-    'thorough': dict(a_per={1: 400, 2: 100, 3: 8, 4: 600}, a_stride3=1, b_stride={1: 1, 2: 1, 3: 20}, b_mod=1,
-                     b_reps=2, c=150000),
+    'thorough': dict(a_per={1: 300, 2: 60, 3: 4, 4: 400}, a_stride3=1, b_stride={1: 1, 2: 2, 3: 40}, b_mod=1,
+                     b_reps=2, c=60000),
 }
 _SHAPES = {}
 
@@ -1163,8 +1174,8 @@ def synthetic_inputs(tier, seed):
 # quick: seeds whose generation is short (measured once as number of Python calls, a deterministic quantity)
 GEN_SEEDS = {'quick': {'kotlin': [2, 4, 5, 8, 9, 11, 14, 15, 19, 23], 'java': [0, 1, 2, 4, 5, 6, 7, 8, 9, 10, 12, 14],
                        'scala': [0, 2, 3, 4, 7, 11], 'groovy': [0, 3, 4, 7, 10, 11]},
-             'thorough': {'kotlin': list(range(80)), 'java': list(range(80)), 'scala': list(range(80)),
-                          'groovy': list(range(40))}}
+             'thorough': {'kotlin': list(range(40)), 'java': list(range(40)), 'scala': list(range(40)),
+                          'groovy': list(range(20))}}
 # objects deep-copied (src.ir.types, src.ir.ast, generator) per program before the generation is cut off; part of the input
 WORK_BUDGET = {'quick': 40000, 'thorough': 150000}
 
@@ -1178,7 +1189,7 @@ def generator_inputs(tier, seed):
         for i, s in enumerate(seeds):
             dis = DIS_MENU[i % 3] if i >= 3 else DIS_MENU[0]
             yield dict(kind='generator', language=lang, seed=s, dis=list(dis), budget=WORK_BUDGET[tier])
-    extra = 2 if tier == 'quick' else 30
+    extra = 2 if tier == 'quick' else 12
     rnd = _r.Random(seed)
     for i in range(extra):
         yield dict(kind='generator', language=['kotlin', 'java', 'scala'][i % 3], seed=1000 + rnd.randrange(100000),
@@ -1253,7 +1264,7 @@ RULE = (
     'all-in, all-out, all-off, all-on, first-on, last-off; options enable_pecs / disable_variance_functions / '
     'disable_variance on constructors named Con, Function<n>, Array; the three cfg.dis settings; RNG seeded per call by '
     'utils.random.r.seed(k). quick = a fixed stratified subsample of this product (strides in SIZES) + 4000 '
-    'VERIF_SEED-random points, thorough = denser strides + 150000 random points. '
+    'VERIF_SEED-random points, thorough = denser strides + 60000 random points. '
     'GENERATOR: every call made while generating and type-overwriting the programs of the fixed (language, seed, cfg.dis) '
     'list (+ VERIF_SEED-random seeds); a deterministic work guard (%r objects '
     'deep-copied by the generator path) cuts off the rare very long generations (counted). '
